@@ -37,6 +37,8 @@
 (*                      tag as it was: the tag only ever changes through   *)
 (*                      the final write, which tag-other and child-missing *)
 (*                      constrain)                                         *)
+(*  C04:tag-moved-on-failure  the same at an error result, stated again     *)
+(*                      where the statement does                           *)
 (*  C14:get-present     source GET of a blob the target repository had     *)
 (*  C14:twice           a blob fetched or pushed more than once            *)
 (*  C14:no-mount        same registry, mount granted, yet bytes moved      *)
